@@ -109,6 +109,11 @@ fn name_at(buf: &[u8; 16], i: usize) -> &str {
 }
 
 pub fn resolve_var_nested<S: Src, const DEPTH: usize, const N0: usize, const N1: usize, const N2: usize, const PRE: usize>(s: &mut S) {
+    resolve_var_nested2::<S, DEPTH, N0, N1, N2, PRE, PRE>(s)
+}
+
+/// PRE1 / PRE2: earlier resolves at the first / second closure level
+pub fn resolve_var_nested2<S: Src, const DEPTH: usize, const N0: usize, const N1: usize, const N2: usize, const PRE: usize, const PRE2: usize>(s: &mut S) {
     // the number of locals per level and of earlier resolves is concrete per harness (a
     // solver-chosen count makes every ArrayVec access a symbolic-offset access into 6 KB)
     let ncount = [N0, N1, N2];
@@ -138,7 +143,7 @@ pub fn resolve_var_nested<S: Src, const DEPTH: usize, const N0: usize, const N1:
         }
         counts[lvl] = n;
         if lvl > 0 {
-            let pre = PRE;
+            let pre = if lvl == 2 { PRE2 } else { PRE };
             let mut j = 0;
             while j < pre {
                 let _ = c.verif_resolve_var(name_at(&pool, next));
@@ -629,6 +634,8 @@ crate::harnesses! {
     cx_compile_probe / 12 => compile_probe;
     #[kani::stub(std::hash::RandomState::new, crate::stub_random_state)]
     cx_resolve_var_d0 / 18 => resolve_var_nested::<_, 0, 3, 0, 0, 0>;
+    #[kani::stub(std::hash::RandomState::new, crate::stub_random_state)]
+    cx_resolve_var_d2_min / 18 => resolve_var_nested2::<_, 2, 2, 0, 0, 1, 0>;
     #[kani::stub(std::hash::RandomState::new, crate::stub_random_state)]
     cx_resolve_var_d0_n2 / 18 => resolve_var_nested::<_, 0, 2, 0, 0, 0>;
     #[kani::stub(std::hash::RandomState::new, crate::stub_random_state)]
